@@ -1,4 +1,8 @@
 import YaqsModel.Lemmas.Krylov
+import YaqsModel.Lemmas.Heff
+import YaqsModel.Lemmas.LanczosH
+import Mathlib.Algebra.Star.Rat
+import Mathlib.Tactic.LinearCombination
 import Mathlib.LinearAlgebra.Matrix.Notation
 import Mathlib.Tactic.FinCases
 import Mathlib.Tactic.NormNum
@@ -328,5 +332,389 @@ example : ∃ (A : Matrix (Fin 2) (Fin 2) ℚ) (u : ℕ → Fin 2 → ℚ) (a b 
 example : (lanczosRat [[2, 1], [1, 3]] [1, 0] 2).alpha = [2, 3] ∧
     (lanczosRat [[2, 1], [1, 3]] [1, 0] 2).betaSq = [1, 0] ∧
     (lanczosRat [[2, 1], [1, 3]] [1, 0] 2).us = [[1, 0], [0, 1]] := by decide +kernel
+
+end Yaqs.Krylov
+
+
+/-! ## 6. the local effective Hamiltonian: dense builders = matrix-free projectors (x19 extension)
+
+  Index-level model `Model/Heff.lean` of `tdvp.py` (`project_site`, `project_bond`, `build_dense_heff_site`,
+  `build_dense_heff_bond`, `update_left_environment`, `update_right_environment`, the size switch of
+  `_evolve_local_tensor_krylov`) and of the two kernels of `tdvp_numba.py`.  All statements are over an arbitrary
+  commutative semiring `K` (so in particular over ℂ and over the Gaussian rationals the driver computes with) and
+  over all dimensions — non-square environments and different in/out physical dimensions included. -/
+namespace Yaqs.Heff
+
+open Finset
+
+/-- **C19.6 `flatten_bij`** the row-major flattening `(i, j, k) ↦ (i·d1 + j)·d2 + k` the model uses for
+    `reshape(-1)` / `reshape(shape)` is a bijection between `{i<d0} × {j<d1} × {k<d2}` and `{n < d0·d1·d2}` with inverse
+    `n ↦ (n / (d1·d2), n / d2 % d1, n % d2)`; likewise for two legs. -/
+theorem flatten_bij (d0 d1 d2 : ℕ) :
+    (∀ i j k, i < d0 → j < d1 → k < d2 →
+        flat3 d1 d2 i j k < d0 * d1 * d2 ∧ unflat3 d1 d2 (flat3 d1 d2 i j k) = (i, j, k)) ∧
+    (∀ n, n < d0 * d1 * d2 →
+        ((unflat3 d1 d2 n).1 < d0 ∧ (unflat3 d1 d2 n).2.1 < d1 ∧ (unflat3 d1 d2 n).2.2 < d2) ∧
+        flat3 d1 d2 (unflat3 d1 d2 n).1 (unflat3 d1 d2 n).2.1 (unflat3 d1 d2 n).2.2 = n) ∧
+    (∀ i j, i < d0 → j < d1 → flat2 d1 i j < d0 * d1 ∧ unflat2 d1 (flat2 d1 i j) = (i, j)) ∧
+    (∀ n, n < d0 * d1 →
+        ((unflat2 d1 n).1 < d0 ∧ (unflat2 d1 n).2 < d1) ∧ flat2 d1 (unflat2 d1 n).1 (unflat2 d1 n).2 = n) :=
+  ⟨fun i j k hi hj hk => ⟨flat3_lt d0 d1 d2 i j k hi hj hk, unflat3_flat3 d1 d2 i j k hj hk⟩,
+   fun n hn => ⟨unflat3_lt d0 d1 d2 n hn, flat3_unflat3 d1 d2 n⟩,
+   fun i j hi hj => ⟨flat2_lt d0 d1 i j hi hj, unflat2_flat2 d1 i j hj⟩,
+   fun n hn => ⟨unflat2_lt d0 d1 n hn, flat2_unflat2 d1 n⟩⟩
+
+example : unflat3 3 2 (flat3 3 2 4 2 1) = (4, 2, 1) ∧ flat3 3 2 4 2 1 = 29 ∧ unflat2 5 (flat2 5 3 4) = (3, 4) := by
+  decide
+
+/-- **C19.6 `reshape_pairs`** `h6.reshape(o·A·B, p·a·b)` keeps the row-major linear index: the entry `[o,A,B,p,a,b]` of
+    the 6-leg einsum result is the entry `[flat(o,A,B), flat(p,a,b)]` of the matrix — the pairing `denseHeffSite` uses;
+    likewise `h4.reshape(p·w, u·v)`. -/
+theorem reshape_pairs (d : SiteDims) (e : BondDims) :
+    (∀ o A' B p a b, flat6 d.aa d.bb d.p d.a d.b o A' B p a b =
+        flat2 (d.p * d.a * d.b) (flat3 d.aa d.bb o A' B) (flat3 d.a d.b p a b)) ∧
+    (∀ p w u v, flat4 e.w e.u e.v p w u v = flat2 (e.u * e.v) (flat2 e.w p w) (flat2 e.v u v)) := by
+  constructor
+  · intro o A' B p a b; unfold flat6 flat2 flat3; ring
+  · intro p w u v; unfold flat4 flat2; ring
+
+example : flat6 2 3 2 2 3 1 1 2 1 0 2 = flat2 (2 * 2 * 3) (flat3 2 3 1 1 2) (flat3 2 3 1 0 2) := by decide
+
+/-- **C19.6 `dense_eq_free_site`** (clause "the dense and matrix-free constructions of the local effective Hamiltonian
+    give the same answer", single-site problem).  For every ket `X` of shape `(p, a, b)`:
+    `(build_dense_heff_site(L, R, W) @ X.reshape(-1)).reshape(o, A, B) = project_site(L, R, W, X)`, entry by entry. -/
+theorem dense_eq_free_site {K : Type*} [CommSemiring K] (d : SiteDims) (L R : ℕ → ℕ → ℕ → K)
+    (W : ℕ → ℕ → ℕ → ℕ → K) (X : ℕ → ℕ → ℕ → K) (o A' B : ℕ) (hA : A' < d.aa) (hB : B < d.bb) :
+    unflattenV3 d.aa d.bb (matVec (d.p * d.a * d.b) (denseHeffSite d L R W) (flattenT3 d.a d.b X)) o A' B =
+      projectSite d L R W X o A' B :=
+  dense_matVec_site d L R W X o A' B hA hB
+
+/-- **C19.6 `dense_eq_free_bond`** the same for the zero-site problem:
+    `(build_dense_heff_bond(L, R) @ C.reshape(-1)).reshape(p, w) = project_bond(L, R, C)`. -/
+theorem dense_eq_free_bond {K : Type*} [CommSemiring K] (d : BondDims) (L R : ℕ → ℕ → ℕ → K) (C : ℕ → ℕ → K)
+    (p w : ℕ) (hw : w < d.w) :
+    unflattenV2 d.w (matVec (d.u * d.v) (denseHeffBond d L R) (flattenT2 d.v C)) p w = projectBond d L R C p w :=
+  dense_matVec_bond d L R C p w hw
+
+/-- a concrete non-square instance over ℚ(i): the dense matrix is not zero and the identity holds by evaluation -/
+example :
+    let d : SiteDims := ⟨2, 2, 1, 2, 2, 1, 2, 1⟩
+    let L : ℕ → ℕ → ℕ → CRat := fun a l A => ⟨(a + 2 * l + A : ℕ), (A : ℕ)⟩
+    let R : ℕ → ℕ → ℕ → CRat := fun b r B => ⟨(b + 1 : ℕ), (r + B : ℕ)⟩
+    let W : ℕ → ℕ → ℕ → ℕ → CRat := fun o p l r => ⟨(o + 2 * p : ℕ), (l + r : ℕ)⟩
+    let X : ℕ → ℕ → ℕ → CRat := fun p a b => ⟨(1 + p + a : ℕ), (b : ℕ)⟩
+    denseHeffSite d L R W 3 2 = ⟨11, 9⟩ ∧ projectSite d L R W X 1 1 0 = ⟨47, 97⟩ ∧
+    unflattenV3 d.aa d.bb (matVec (d.p * d.a * d.b) (denseHeffSite d L R W) (flattenT3 d.a d.b X)) 1 1 0 =
+      projectSite d L R W X 1 1 0 := by
+  decide +kernel
+
+/-- **C19.6 `numba_eq_einsum`** the compiled kernels (`build_dense_heff_site_numba`: two-stage contraction, index
+    arithmetic `o_aa // a_out`, `p_a_b // (a_in·b_in)`, …; `build_dense_heff_bond_numba`) produce the matrix of the einsum
+    builders, entry by entry — same contraction, same flattening. -/
+theorem numba_eq_einsum {K : Type*} [CommSemiring K] (d : SiteDims) (e : BondDims) (L R : ℕ → ℕ → ℕ → K)
+    (W : ℕ → ℕ → ℕ → ℕ → K) (row col : ℕ) :
+    denseHeffSiteNumba d L R W row col = denseHeffSite d L R W row col ∧
+    denseHeffBondNumba e L R row col = denseHeffBond e L R row col :=
+  ⟨numba_site_eq d L R W row col, numba_bond_eq e L R row col⟩
+
+/-- **C19.6 `size_switch_invisible`** (`_evolve_local_tensor_krylov`, `if n_loc <= dense_threshold`): the operator
+    handed to `expm_krylov` is the same linear map on both sides of the switch — for any two thresholds and every input
+    vector the two `apply_effective_operator` closures agree on every output row; so `DENSE_THRESHOLD` only selects
+    how the product is computed. -/
+theorem size_switch_invisible {K : Type*} [CommSemiring K] (thr thr' : ℕ) (d : SiteDims) (e : BondDims)
+    (L R : ℕ → ℕ → ℕ → K) (W : ℕ → ℕ → ℕ → ℕ → K) (x : ℕ → K) :
+    (∀ row, row < d.o * d.aa * d.bb → applyEffSite thr d L R W x row = applyEffSite thr' d L R W x row) ∧
+    (∀ row, row < e.pp * e.w → applyEffBond thr e L R x row = applyEffBond thr' e L R x row) := by
+  constructor
+  · intro row hrow
+    have h := free_eq_dense_site d L R W x row hrow
+    unfold applyEffSite
+    split <;> split <;> simp only [h]
+  · intro row hrow
+    have h := free_eq_dense_bond e L R x row hrow
+    unfold applyEffBond
+    split <;> split <;> simp only [h]
+
+/-- both sides of the switch are reachable: 8 entries with threshold 8 is dense, with threshold 7 matrix-free -/
+example : useDense (2 * 2 * 2) 8 = true ∧ useDense (2 * 2 * 2) 7 = false ∧ useDense 128 denseThreshold = true ∧
+    useDense 129 denseThreshold = false := by decide
+
+/-- **C19.6 `heff_hermitian`** (the hypothesis "Hermitian local generator" of `krylov_isometry` and of C05's norm
+    budget, single-site problem).  If the MPO tensor and the two environments are conjugate-symmetric up to invertible
+    gauge matrices on the two MPO bonds —
+    `W[o,p,l,r]* = Σ_{l',r'} G_l[l,l']·W[p,o,l',r']·G_r⁻¹[r',r]`, `L[A,l,a]* = Σ_{l'} L[a,l',A]·G_l⁻¹[l',l]`,
+    `R[B,r,b]* = Σ_{r'} G_r[r,r']·R[b,r',B]` (`G = 1`: every operator-valued MPO entry Hermitian; the SVD-compressed
+    MPOs of `from_pauli_sum` need a general `G`) — and ket and bra legs have equal dimensions, then the matrix built by
+    `build_dense_heff_site` is Hermitian. -/
+theorem heff_hermitian {K : Type*} [CommSemiring K] [StarRing K] (d : SiteDims) (ha : d.a = d.aa) (hb : d.b = d.bb)
+    (Gl Gli Gr Gri : ℕ → ℕ → K) (hl : GaugeInv d.l Gl Gli) (hr : GaugeInv d.r Gr Gri)
+    (L R : ℕ → ℕ → ℕ → K) (W : ℕ → ℕ → ℕ → ℕ → K)
+    (hW : OpHermG d.l d.r Gl Gri W) (hL : LeftHermG d.l Gli L) (hR : RightHermG d.r Gr R) (row col : ℕ) :
+    star (denseHeffSite d L R W row col) = denseHeffSite d L R W col row := by
+  unfold denseHeffSite
+  rw [h6_herm d Gl Gli Gr Gri hl hr L R W hW hL hR, ha, hb]
+
+/-- **C19.6 `heff_bond_hermitian`** the same for `build_dense_heff_bond`: both blocks sit on the same MPO bond, the left one
+    conjugate-symmetric with `G⁻¹`, the right one with `G`. -/
+theorem heff_bond_hermitian {K : Type*} [CommSemiring K] [StarRing K] (e : BondDims) (hu : e.u = e.pp) (hvw : e.v = e.w)
+    (G Gi : ℕ → ℕ → K) (hm : GaugeInv e.m G Gi) (L R : ℕ → ℕ → ℕ → K)
+    (hL : LeftHermG e.m Gi L) (hR : RightHermG e.m G R) (row col : ℕ) :
+    star (denseHeffBond e L R row col) = denseHeffBond e L R col row := by
+  have _ := hu
+  unfold denseHeffBond
+  rw [h4_herm e G Gi hm L R hL hR, hvw]
+
+/-- **C19.6 `env_update_hermitian`** `update_left_environment` / `update_right_environment` called — as every sweep
+    does — with the same tensor for ket and bra carry the conjugate symmetry of a block from one MPO bond to the next
+    (from gauge `G_l` to `G_r` and back), and the boundary blocks `identity[i, a, i] = 1` have it for the trivial gauge. -/
+theorem env_update_hermitian {K : Type*} [CommSemiring K] [StarRing K] (d : SiteDims)
+    (hop : d.o = d.p) (ha : d.a = d.aa) (hb : d.b = d.bb) (Gl Gli Gr Gri : ℕ → ℕ → K)
+    (hl : GaugeInv d.l Gl Gli) (hr : GaugeInv d.r Gr Gri)
+    (W : ℕ → ℕ → ℕ → ℕ → K) (hW : OpHermG d.l d.r Gl Gri W) (ket : ℕ → ℕ → ℕ → K) :
+    (∀ L, LeftHermG d.l Gli L → LeftHermG d.r Gri (updateLeft star d L W ket ket)) ∧
+    (∀ R, RightHermG d.r Gr R → RightHermG d.l Gl (updateRight star d R W ket ket)) ∧
+    LeftHermG 1 gaugeOne (idEnv : ℕ → ℕ → ℕ → K) ∧ RightHermG 1 gaugeOne (idEnv : ℕ → ℕ → ℕ → K) :=
+  ⟨fun L hL => updateLeft_herm d hop ha Gl Gli Gri hl W hW L hL ket,
+   fun R hR => updateRight_herm d hop hb Gl Gr Gri hr W hW R hR ket,
+   idEnv_leftHerm 1 gaugeOne (by intro l hl; simp [gaugeOne]; omega),
+   idEnv_rightHerm 1 gaugeOne (by intro r hr; simp [gaugeOne]; omega)⟩
+
+/-- **C19.6 `heff_hermitian_chain`** for an MPS/MPO chain `ls ++ s :: rs` of any length whose MPO tensors are Hermitian up
+    to bond gauges `g` (with unit row/column sums on the two outer bonds — `[[1]]` for an open chain): with the left
+    block built site by site by `update_left_environment` from the identity boundary over `ls`, and the right block
+    by `update_right_environment` (as `initialize_right_environments` does) over `rs` — all with the current MPS tensors
+    as ket and bra — the dense effective Hamiltonian of site `s` is Hermitian. -/
+theorem heff_hermitian_chain {K : Type*} [CommSemiring K] [StarRing K] (g : BondGauge K)
+    (hg : ∀ k, GaugeInv (g.bd k) (g.G k) (g.Gi k)) (ls rs : List (Site K)) (s : Site K)
+    (hchain : ChainHerm g 0 (ls ++ s :: rs))
+    (hb0 : ∀ l, l < g.bd 0 → ∑ l' ∈ range (g.bd 0), g.Gi 0 l' l = 1)
+    (hbn : ∀ r, r < g.bd (ls.length + 1 + rs.length) →
+      ∑ r' ∈ range (g.bd (ls.length + 1 + rs.length)), g.G (ls.length + 1 + rs.length) r r' = 1)
+    (row col : ℕ) :
+    star (denseHeffSite s.d (leftEnvChain star idEnv ls) (rightEnvChain star idEnv rs) s.W row col) =
+      denseHeffSite s.d (leftEnvChain star idEnv ls) (rightEnvChain star idEnv rs) s.W col row := by
+  obtain ⟨hls, hs, hrs⟩ : ChainHerm g 0 ls ∧ HermSiteG g (0 + ls.length) s ∧ ChainHerm g (0 + ls.length + 1) rs := by
+    have := (chainHerm_append g ls (s :: rs) 0).mp hchain
+    exact ⟨this.1, this.2.1, this.2.2⟩
+  obtain ⟨_, ha, hb, hl, hr, hW⟩ := hs
+  have hL := leftEnvChain_herm g hg ls 0 hls idEnv (idEnv_leftHerm _ _ hb0)
+  have hR := rightEnvChain_herm g hg rs (0 + ls.length + 1) hrs idEnv
+    (idEnv_rightHerm _ _ (by simpa [Nat.add_assoc] using hbn))
+  exact heff_hermitian s.d ha hb (g.G (0 + ls.length)) (g.Gi (0 + ls.length)) (g.G (0 + ls.length + 1))
+    (g.Gi (0 + ls.length + 1)) (hl ▸ hg _) (hr ▸ hg _) _ _ s.W (hl ▸ hr ▸ hW) (hl ▸ hL) (hr ▸ hR) row col
+
+/-- **C19.6 `heff_bond_hermitian_chain`** the zero-site problem between the sites `ls` and `rs` of such a chain
+    (`update_bond(left_blocks[i+1], right_blocks[i], …)`). -/
+theorem heff_bond_hermitian_chain {K : Type*} [CommSemiring K] [StarRing K] (g : BondGauge K)
+    (hg : ∀ k, GaugeInv (g.bd k) (g.G k) (g.Gi k)) (ls rs : List (Site K)) (e : BondDims)
+    (hvw : e.v = e.w) (hm : e.m = g.bd ls.length)
+    (hchain : ChainHerm g 0 (ls ++ rs))
+    (hb0 : ∀ l, l < g.bd 0 → ∑ l' ∈ range (g.bd 0), g.Gi 0 l' l = 1)
+    (hbn : ∀ r, r < g.bd (ls.length + rs.length) →
+      ∑ r' ∈ range (g.bd (ls.length + rs.length)), g.G (ls.length + rs.length) r r' = 1)
+    (row col : ℕ) :
+    star (denseHeffBond e (leftEnvChain star idEnv ls) (rightEnvChain star idEnv rs) row col) =
+      denseHeffBond e (leftEnvChain star idEnv ls) (rightEnvChain star idEnv rs) col row := by
+  obtain ⟨hls, hrs⟩ := (chainHerm_append g ls rs 0).mp hchain
+  have hL := leftEnvChain_herm g hg ls 0 hls idEnv (idEnv_leftHerm _ _ hb0)
+  have hR := rightEnvChain_herm g hg rs (0 + ls.length) hrs idEnv (idEnv_rightHerm _ _ (by simpa using hbn))
+  simp only [Nat.zero_add] at hL hR
+  unfold denseHeffBond
+  rw [h4_herm e (g.G ls.length) (g.Gi ls.length) (hm ▸ hg _) _ _ (hm ▸ hL) (hm ▸ hR), hvw]
+
+/-- **C19.6 `env_update_assoc`** the environment contractions are associative.
+    (i) Updating site by site over `xs ++ ys` is updating over the block `xs` and then over the block `ys` (left), resp.
+        `ys` then `xs` (right) — `left_blocks[i+1]` depends on the sites to its left only through `left_blocks[i]`.
+    (ii) For a chain `s :: rest` with matching bond dimensions, absorbing it into the left block `L0` and pairing with any
+        right block `F` (`Σ E[i,j,k]·F[i,j,k]`) equals pairing `L0` with `F` after absorbing the chain from the right: the
+        site-by-site left contraction (`update_left_environment`) and the site-by-site right contraction
+        (`update_right_environment`) evaluate the same network.
+    (iii) Hence the value `⟨left_blocks[k], right_blocks[k-1]⟩` of the network `⟨ψ|H|ψ⟩` cut at bond `k` is the same for
+        every `k`: it always equals the boundary block paired with the chain fully contracted from the right. -/
+theorem env_update_assoc {K : Type*} [CommSemiring K] (cj : K → K) :
+    (∀ (L0 : ℕ → ℕ → ℕ → K) (xs ys : List (Site K)),
+        leftEnvChain cj L0 (xs ++ ys) = leftEnvChain cj (leftEnvChain cj L0 xs) ys) ∧
+    (∀ (R0 : ℕ → ℕ → ℕ → K) (xs ys : List (Site K)),
+        rightEnvChain cj R0 (xs ++ ys) = rightEnvChain cj (rightEnvChain cj R0 ys) xs) ∧
+    (∀ (s : Site K) (rest : List (Site K)), ChainDims (s :: rest) → ∀ (L0 F : ℕ → ℕ → ℕ → K),
+        pair3 (lastSite s rest).d.b (lastSite s rest).d.r (lastSite s rest).d.bb (leftEnvChain cj L0 (s :: rest)) F =
+          pair3 s.d.a s.d.l s.d.aa L0 (rightEnvChain cj F (s :: rest))) ∧
+    (∀ (s : Site K) (rest ys : List (Site K)), ChainDims (s :: rest) → ∀ (L0 R0 : ℕ → ℕ → ℕ → K),
+        pair3 (lastSite s rest).d.b (lastSite s rest).d.r (lastSite s rest).d.bb
+            (leftEnvChain cj L0 (s :: rest)) (rightEnvChain cj R0 ys) =
+          pair3 s.d.a s.d.l s.d.aa L0 (rightEnvChain cj R0 ((s :: rest) ++ ys))) := by
+  refine ⟨leftEnvChain_append cj, rightEnvChain_append cj, fun s rest hd L0 F => env_pair_chain cj s rest hd L0 F, ?_⟩
+  intro s rest ys hd L0 R0
+  rw [rightEnvChain_append cj R0 (s :: rest) ys]
+  exact env_pair_chain cj s rest hd L0 _
+
+/-- a concrete two-site chain over ℚ(i) with bond dimensions 1–2–1 (MPO bonds 1–2–1): the left and the right
+    contraction give the same non-zero number -/
+example :
+    let s1 : Site CRat := ⟨⟨2, 2, 1, 1, 2, 2, 1, 2⟩, fun p a b => ⟨(p + b + 1 : ℕ), (a + b : ℕ)⟩,
+      fun o p _ r => ⟨(o + p + r : ℕ), (o : ℤ) - p⟩⟩
+    let s2 : Site CRat := ⟨⟨2, 2, 2, 2, 1, 1, 2, 1⟩, fun p a b => ⟨(p + 2 * a : ℕ), (1 + b : ℕ)⟩,
+      fun o p l _ => ⟨(o + p + l : ℕ), (p : ℤ) - o⟩⟩
+    ChainDims [s1, s2] ∧
+    pair3 1 1 1 (leftEnvChain CRat.conj idEnv [s1, s2]) idEnv = pair3 1 1 1 idEnv (rightEnvChain CRat.conj idEnv [s1, s2]) ∧
+    pair3 1 1 1 (leftEnvChain CRat.conj idEnv [s1, s2]) idEnv ≠ 0 := by
+  intro s1 s2
+  refine ⟨⟨rfl, rfl, rfl, trivial⟩, ?_, ?_⟩ <;> decide +kernel
+
+/-- non-vacuity of the hypotheses: a genuinely complex MPO tensor that is Hermitian entry by entry (entries
+    `(o+p) + i(o-p)`, identity gauge) and a three-site chain of it meeting `ChainHerm` with the boundary conditions -/
+example : ∃ (g : BondGauge CRat) (s : Site CRat), (∀ k, GaugeInv (g.bd k) (g.G k) (g.Gi k)) ∧
+    ChainHerm g 0 ([s] ++ s :: [s]) ∧ s.W 0 1 0 0 ≠ s.W 1 0 0 0 ∧
+    (∀ l, l < g.bd 0 → ∑ l' ∈ range (g.bd 0), g.Gi 0 l' l = 1) ∧
+    (∀ r, r < g.bd 3 → ∑ r' ∈ range (g.bd 3), g.G 3 r r' = 1) := by
+  refine ⟨⟨fun _ => 1, fun _ => gaugeOne, fun _ => gaugeOne⟩,
+    ⟨⟨2, 2, 2, 2, 2, 2, 1, 1⟩, fun p a b => ⟨(p : ℚ) + a, (b : ℚ)⟩, fun o p _ _ => ⟨(o : ℚ) + p, (o : ℚ) - p⟩⟩,
+    fun _ => gaugeInv_one 1, ?_, by decide +kernel, ?_, ?_⟩
+  · have hs : ∀ k, HermSiteG (⟨fun _ => 1, fun _ => gaugeOne, fun _ => gaugeOne⟩ : BondGauge CRat) k
+        ⟨⟨2, 2, 2, 2, 2, 2, 1, 1⟩, fun p a b => ⟨(p : ℚ) + a, (b : ℚ)⟩, fun o p _ _ => ⟨(o : ℚ) + p, (o : ℚ) - p⟩⟩ := by
+      intro k
+      refine ⟨rfl, rfl, rfl, rfl, rfl, ?_⟩
+      intro o p l r hl hr
+      change l < 1 at hl
+      change r < 1 at hr
+      have hl0 : l = 0 := by omega
+      have hr0 : r = 0 := by omega
+      subst hl0 hr0
+      simp only [Finset.range_one, Finset.sum_singleton, gaugeOne, if_true, one_mul, mul_one]
+      apply CRat.ext <;> simp
+      ring
+    exact ⟨hs 0, hs 1, hs 2, trivial⟩
+  · intro l hl
+    change l < 1 at hl
+    have hl0 : l = 0 := by omega
+    subst hl0
+    simp [gaugeOne]
+  · intro r hr
+    change r < 1 at hr
+    have hr0 : r = 0 := by omega
+    subst hr0
+    simp [gaugeOne]
+
+/-- a non-identity gauge: `G = G⁻¹ = diag(1, −1)` on a bond of dimension 2 makes an MPO tensor with an anti-Hermitian
+    off-diagonal entry (`W[·,·,0,1]* = −W[·,·,0,1]ᵀ`, as SVD compression produces them) meet `OpHermG`, while it is not
+    Hermitian entry by entry -/
+example : ∃ (G : ℕ → ℕ → CRat) (W : ℕ → ℕ → ℕ → ℕ → CRat), GaugeInv 2 G G ∧ OpHermG 2 2 G G W ∧
+    ¬ OpHermG 2 2 gaugeOne gaugeOne W := by
+  refine ⟨fun i j => if i = j then (if i = 1 then -1 else 1) else 0,
+    fun o p l r => if l = r then ⟨(o : ℚ) + p, (o : ℚ) - p⟩ else if l = 0 ∧ r = 1 then ⟨(o : ℚ) - p, (o : ℚ) + p⟩ else 0,
+    ?_, ?_, ?_⟩
+  · intro i j hi hj
+    have hi' : i = 0 ∨ i = 1 := by omega
+    have hj' : j = 0 ∨ j = 1 := by omega
+    rcases hi' with h | h <;> rcases hj' with h' | h' <;> subst h h' <;> decide +kernel
+  · intro o p l r hl hr
+    have hl' : l = 0 ∨ l = 1 := by omega
+    have hr' : r = 0 ∨ r = 1 := by omega
+    rcases hl' with h | h <;> rcases hr' with h' | h' <;> subst h h' <;>
+      simp [Finset.sum_range_succ] <;> apply CRat.ext <;> simp <;> ring
+  · intro h
+    have := h 1 0 0 1 (by omega) (by omega)
+    revert this
+    simp [Finset.sum_range_succ, gaugeOne]
+    decide +kernel
+
+end Yaqs.Heff
+
+
+/-! ## 7. the Lanczos iteration of `expm_krylov`: `Vᴴ V = 1` and `Vᴴ A V = T` (x19 extension)
+
+  `expm_krylov` runs the plain three-term recurrence — `w = A v_j`, `alpha[j] = Re⟨v_j, w⟩`, `w −= alpha[j] v_j`,
+  `w −= beta[j-1] v_{j-1}`, `beta[j] = ‖w‖`, `v_{j+1} = w / beta[j]` — **without** re-orthogonalisation (neither the pure
+  Python branch nor `lanczos_numba.orthogonalize_step` projects against earlier vectors).  `LanczosRun A v α β m`
+  (`Lemmas/LanczosH.lean`) states exactly these relations for the `m` vectors built before an exit; in exact arithmetic
+  they already force orthonormality.  (In floating point orthogonality degrades as Ritz values converge; the spec tie
+  `basis` of the harness measures it on every run.) -/
+namespace Yaqs.Krylov
+
+open Matrix
+
+/-- **C19.5 `lanczos_projection`** (full form of `lanczos_tridiagonal`).  For a Hermitian `A` over any field with an
+    involution (ℂ, or ℝ/ℚ with the trivial one), real `alpha`, `beta`, and `m` vectors produced by the recurrence of
+    `expm_krylov` without breakdown (`beta[j] ≠ 0` for `j < m-1`): the matrix `V = [v_0 … v_{m-1}]` has orthonormal
+    columns and `Vᴴ A V` is the tridiagonal matrix with `alpha` on the diagonal and `beta` beside it — the matrix the
+    code hands to `eigh_tridiagonal`.  This discharges the hypothesis `hV` of `krylov_isometry` in exact arithmetic. -/
+theorem lanczos_projection {n K : Type*} [Fintype n] [Field K] [StarRing K] (A : Matrix n n K) (hA : Aᴴ = A)
+    (v : ℕ → n → K) (α β : ℕ → K) (m : ℕ) (h : LanczosRun A v α β m) :
+    (Matrix.of fun (x : n) (i : Fin m) => v i x)ᴴ * (Matrix.of fun (x : n) (i : Fin m) => v i x) = 1 ∧
+    (Matrix.of fun (x : n) (i : Fin m) => v i x)ᴴ * A * (Matrix.of fun (x : n) (i : Fin m) => v i x) =
+      Matrix.of fun (i j : Fin m) => tri α β i j := by
+  constructor
+  · ext i j
+    have e := lanczosH_orthonormal A hA v α β m h i j i.2 j.2
+    rw [Matrix.mul_apply, Matrix.one_apply]
+    simp only [Matrix.conjTranspose_apply, Matrix.of_apply, Fin.ext_iff]
+    exact e
+  · ext i j
+    have e := lanczosH_tri A hA v α β m h i j i.2 j.2
+    rw [Matrix.mul_assoc, Matrix.mul_apply]
+    simp only [Matrix.conjTranspose_apply, Matrix.of_apply]
+    exact e
+
+/-- entrywise form, and the diagonal entries `⟨v_j, A v_j⟩` are real — so taking `.real` in
+    `alpha[j] = np.vdot(vj, w).real` discards nothing for a Hermitian operator -/
+theorem lanczos_entries {n K : Type*} [Fintype n] [Field K] [StarRing K] (A : Matrix n n K) (hA : Aᴴ = A)
+    (v : ℕ → n → K) (α β : ℕ → K) (m : ℕ) (h : LanczosRun A v α β m) :
+    (∀ i j, i < m → j < m → ip (v i) (v j) = if i = j then 1 else 0) ∧
+    (∀ i j, i < m → j < m → ip (v i) (A *ᵥ v j) = tri α β i j) ∧
+    (∀ x : n → K, star (ip x (A *ᵥ x)) = ip x (A *ᵥ x)) :=
+  ⟨lanczosH_orthonormal A hA v α β m h, lanczosH_tri A hA v α β m h,
+   fun x => by rw [← ip_conj, ip_herm A hA]⟩
+
+/-- non-vacuity: `A = [[2,1],[1,3]]`, `v₀ = e₁`, `v₁ = e₂`, `alpha = (2, 3)`, `beta₀ = 1` is a run with `m = 2` -/
+example : LanczosRun (!![2, 1; 1, 3] : Matrix (Fin 2) (Fin 2) ℚ)
+    (fun j => match j with | 0 => ![1, 0] | 1 => ![0, 1] | _ => 0)
+    (fun j => match j with | 0 => 2 | 1 => 3 | _ => 0) (fun j => match j with | 0 => 1 | _ => 0) 2 where
+  first := fun _ => by decide +kernel
+  step := fun j hj => by omega
+  alpha := fun j hj => by
+    match j with
+    | 0 => decide +kernel
+    | 1 => decide +kernel
+  unit := fun j hj => by
+    match j with
+    | 0 => decide +kernel
+    | 1 => decide +kernel
+  nobreak := fun j hj => by
+    match j with
+    | 0 => decide +kernel
+  alpha_real := fun _ => rfl
+  beta_real := fun _ => rfl
+
+/-- non-vacuity over ℂ with a genuinely complex Hermitian matrix: `A = [[2, i], [−i, 3]]`, `v₀ = e₁`, `v₁ = −i e₂` -/
+example : (!![2, Complex.I; -Complex.I, 3] : Matrix (Fin 2) (Fin 2) ℂ)ᴴ = !![2, Complex.I; -Complex.I, 3] ∧
+    LanczosRun (!![2, Complex.I; -Complex.I, 3] : Matrix (Fin 2) (Fin 2) ℂ)
+      (fun j => match j with | 0 => ![1, 0] | 1 => ![0, -Complex.I] | _ => 0)
+      (fun j => match j with | 0 => 2 | 1 => 3 | _ => 0) (fun j => match j with | 0 => 1 | _ => 0) 2 := by
+  refine ⟨?_, ⟨?_, ?_, ?_, ?_, ?_, ?_, ?_⟩⟩
+  · ext i j; fin_cases i <;> fin_cases j <;> simp [Matrix.conjTranspose_apply]
+  · intro _; ext i; fin_cases i <;> simp
+  · intro j hj; omega
+  · intro j hj
+    match j with
+    | 0 => simp [ip, Matrix.mulVec, dotProduct, Fin.sum_univ_succ]
+    | 1 =>
+      simp [ip, Matrix.mulVec, dotProduct, Fin.sum_univ_succ]
+      linear_combination (3 : ℂ) * Complex.I_mul_I
+  · intro j hj
+    match j with
+    | 0 => simp [ip, dotProduct, Fin.sum_univ_succ]
+    | 1 => simp [ip, dotProduct, Fin.sum_univ_succ]
+  · intro j hj
+    match j with
+    | 0 => simp
+  · intro j
+    match j with
+    | 0 => simp
+    | 1 => simp
+    | j + 2 => simp
+  · intro j
+    match j with
+    | 0 => simp
+    | j + 1 => simp
 
 end Yaqs.Krylov
